@@ -260,8 +260,11 @@ def rule_writer_only_in_emit_flush(ctx, rep, rid='G3'):
                 if it['name'] in ('emit', 'flush'):
                     own.add(it['path'])
         bad = []
+        # private helpers that only emit()/flush() call (a `with_writer(|w| ..)` lock helper) belong to them
+        from .qmodel import private_region, _fn_owner
+        region = set(own) | private_region(cad, [cad.bodies[p_] for p_ in own if p_ in cad.bodies])
         for b in cad.all_bodies:
-            if b.path in own or b.file.endswith('/test.rs') or '::tests::' in b.path:
+            if b.path in region or _fn_owner(cad, b) in region or b.file.endswith('/test.rs') or '::tests::' in b.path:
                 continue
             is_method = b.impl_self and type_head(b.impl_self) == adt
             if not is_method:
